@@ -389,6 +389,8 @@ theorem call_list_missing_deref_differs (h : Heap) (e : Env) (a : Nat) (hv : e.g
 
 inductive Ty where
   | native | bool | chr | enum | cstr | string | shadow | struct
+  | fnptr        -- callback: pointer to function, passed through
+  | void_        -- only as `void **`
   deriving DecidableEq, Repr
 
 inductive Intent where
@@ -406,6 +408,7 @@ structure Param where
 def sgroupOf : Ty → Nat
   | .native => p_native | .bool => p_bool | .chr => p_char | .enum => p_native
   | .cstr => p_char | .string => p_string | .shadow => p_shadow | .struct => p_struct
+  | .fnptr => p_native | .void_ => p_void
 
 def spointerOf : Mode → Nat
   | .value => p_scalar | .pointer => p_ptr | .reference => p_ref | .convString => p_scalar
@@ -426,15 +429,19 @@ def descOf (p : Param) : ArgDesc :=
   { sgroup := sgroupOf p.ty, spointer := spointerOf2 p.mode p.inner, intent := intentOf p.intent, suffix := 0,
     extra := [], isPtr := p.mode = .pointer || (p.inner && p.mode = .reference), isRef := p.mode = .reference,
     valueAttr := p.mode = .value || p.mode = .convString,
-    conv := convOf p.ty, isResult := false }
+    conv := convOf p.ty, isResult := false, isEnum := p.ty = .enum }
 
 /-- declarations in the modelled domain: `char` by value (`chr`) and `char *` (`cstr`) are separate
-    kinds; by-value parameters are `in`; enum pointers/references are outside (see
-    `enum_indirect_ill_typed`); `std::string` by value is mode `convString`; `inner` marks `T **` / `T *&`
-    (native only). -/
+    kinds; by-value parameters are `in`; `std::string` by value is mode `convString`; `inner` marks
+    `T **` / `T *&` (native; `char **` and `void **` with intent in); `fnptr` is a callback passed by value. -/
 def Param.valid (p : Param) : Bool :=
-  if p.inner then (p.ty = .native && (p.mode = .pointer || p.mode = .reference)) else
+  if p.inner then
+    ((p.ty = .native && (p.mode = .pointer || p.mode = .reference)) ||
+     ((p.ty = .cstr || p.ty = .void_) && p.mode = .pointer && p.intent = .in_)) else
   match p.ty, p.mode with
+  | .fnptr, .value => p.intent = .in_
+  | .fnptr, _ => false
+  | .void_, _ => false
   | .string, .convString => p.intent = .in_
   | _, .convString => false
   | .chr, .value => p.intent = .in_
@@ -442,7 +449,6 @@ def Param.valid (p : Param) : Bool :=
   | .cstr, .pointer => true
   | .cstr, _ => false
   | .enum, .value => p.intent = .in_
-  | .enum, _ => false
   | .string, .value => false
   | _, .value => p.intent = .in_
   | _, _ => true
@@ -479,7 +485,8 @@ def expected (h : Heap) (p : Param) (c : Val) : Seen :=
 /-- the Op shape documented for each key of the plain C API -/
 def docPlan (p : Param) : ArgPlan :=
   match p.ty, p.mode with
-  | .enum, m => ⟨[.arg], [.castEnum], some (if m = .reference then .deref .cxx else .plain .cxx), []⟩
+  | .enum, .value => ⟨[.arg], [.castEnum], some (.plain .cxx), []⟩
+  | .enum, m => ⟨[.arg], [.structCast false], some (if m = .reference then .deref .cxx else .plain .cxx), []⟩
   | .chr, .value => ⟨[.argDecl 1], [], some (.plain .c), []⟩
   | .string, .convString => ⟨[.argDecl 1], [], some (.plain .c), []⟩
   | .string, m =>
@@ -495,7 +502,7 @@ def docPlan (p : Param) : ArgPlan :=
   | _, .pointer => ⟨[if p.inner && p.intent = .in_ then .argDecl 1 else .arg], [], some (.plain .c), []⟩
   | _, _ => ⟨[.arg], [], some (.plain .c), []⟩
 
-def allTys : List Ty := [.native, .bool, .chr, .enum, .cstr, .string, .shadow, .struct]
+def allTys : List Ty := [.native, .bool, .chr, .enum, .cstr, .string, .shadow, .struct, .fnptr, .void_]
 def allModes : List Mode := [.value, .pointer, .reference, .convString]
 def allIntents : List Intent := [.in_, .out, .inout]
 def allParams : List Param :=
@@ -513,15 +520,12 @@ def planOf (p : Param) : ArgPlan :=
     per-argument rules of wrap_function, is exactly the documented Op shape, with `{cxx_var}` /
     `{c_var}` in the documented positions, address-of vs dereference as documented.
     (Enum pointers/references are included: the table says what the code does for them.) -/
-theorem table_arg_shapes : ∀ p : Param, (p.valid = true ∨ (p.ty = .enum ∧ p.inner = false)) →
-    planOf p = docPlan p := by
-  have h : (allParams.all fun p => !(p.valid || (p.ty == .enum && !p.inner)) || planOf p == docPlan p) = true := by
+theorem table_arg_shapes : ∀ p : Param, p.valid = true → planOf p = docPlan p := by
+  have h : (allParams.all fun p => !p.valid || planOf p == docPlan p) = true := by
     decide +kernel
   intro p hp
   have := List.all_eq_true.mp h p (mem_allParams p)
-  rcases hp with hp | ⟨hp, hq⟩
-  · simpa [hp] using this
-  · simpa [hp, hq] using this
+  simpa [hp] using this
 
 /-- semantics of the documented shapes, for all values -/
 theorem docPlan_equiv (h : Heap) (p : Param) (c : Val) (hv : p.valid = true) (hw : wellTyped h p c) :
@@ -542,7 +546,7 @@ theorem docPlan_equiv (h : Heap) (p : Param) (c : Val) (hv : p.valid = true) (hw
 theorem arg_call_equivalence (h : Heap) (p : Param) (c : Val) (hv : p.valid = true)
     (hw : wellTyped h p c) :
     runArg h p.mode (planOf p) c = some (expected h p c) := by
-  rw [table_arg_shapes p (Or.inl hv)]
+  rw [table_arg_shapes p hv]
   exact docPlan_equiv h p c hv hw
 
 example : runArg (fun _ => .str [104, 105]) .reference (planOf ⟨.string, .reference, .in_, false⟩) (.ptr (.heap 7))
@@ -565,13 +569,38 @@ theorem pointer_to_pointer (h : Heap) (a : Nat) (i : Intent) :
   · have := arg_call_equivalence h ⟨.native, .reference, i, true⟩ (.ptr (.heap a)) (by cases i <;> decide) ⟨a, rfl⟩
     simpa [expected] using this
 
-/-- the model reproduces the code's behaviour for enum pointers/references: `c_to_cxx`
-    (`static_cast<E>(p)`) is applied to the pointer, which is ill-typed (does not compile).
-    Open finding; such parameters are outside `Param.valid`. -/
-theorem enum_indirect_ill_typed (h : Heap) (m : Mode) (i : Intent) (a : Addr) (hm : m ≠ .value) :
-    runArg h m (planOf ⟨.enum, m, i, false⟩) (.ptr a) = some .bad := by
-  rw [table_arg_shapes _ (Or.inr ⟨rfl, rfl⟩)]
-  cases m <;> simp at hm <;> simp [runArg, docPlan, runPre, evalRhs, evalCall, resolve, Env.get]
+/-- enum by pointer / reference (after the repair eb11a8b): the pointer to the enum's int form is
+    converted as a pointer, the callee works on the caller's cell -/
+theorem enum_indirect (h : Heap) (a : Nat) (i : Intent) :
+    runArg h .pointer (planOf ⟨.enum, .pointer, i, false⟩) (.ptr (.heap a)) = some (.obj .pointer a) ∧
+    runArg h .reference (planOf ⟨.enum, .reference, i, false⟩) (.ptr (.heap a)) = some (.obj .reference a) := by
+  constructor
+  · have := arg_call_equivalence h ⟨.enum, .pointer, i, false⟩ (.ptr (.heap a)) (by cases i <;> decide) ⟨a, rfl⟩
+    simpa [expected] using this
+  · have := arg_call_equivalence h ⟨.enum, .reference, i, false⟩ (.ptr (.heap a)) (by cases i <;> decide) ⟨a, rfl⟩
+    simpa [expected] using this
+
+/-- witness about the code before eb11a8b: it applied the by-value conversion `static_cast<E>(p)` to
+    the pointer; that plan is ill-typed (the wrapper did not compile) -/
+def oldEnumIndirectPlan (m : Mode) : ArgPlan :=
+  ⟨[.arg], [.castEnum], some (if m = .reference then .deref .cxx else .plain .cxx), []⟩
+
+theorem enum_indirect_old_code_ill_typed (h : Heap) (m : Mode) (a : Addr) (hm : m = .pointer ∨ m = .reference) :
+    runArg h m (oldEnumIndirectPlan m) (.ptr a) = some .bad := by
+  rcases hm with rfl | rfl <;> simp [runArg, oldEnumIndirectPlan, runPre, evalRhs, evalCall, resolve, Env.get]
+
+/-- callbacks, `char **` and `void **` are handed to the library unchanged -/
+theorem pass_through_kinds (h : Heap) (a : Nat) :
+    runArg h .value (planOf ⟨.fnptr, .value, .in_, false⟩) (.ptr (.heap a)) = some (.val (.ptr (.heap a))) ∧
+    runArg h .pointer (planOf ⟨.cstr, .pointer, .in_, true⟩) (.ptr (.heap a)) = some (.obj .pointer a) ∧
+    runArg h .pointer (planOf ⟨.void_, .pointer, .in_, true⟩) (.ptr (.heap a)) = some (.obj .pointer a) := by
+  refine ⟨?_, ?_, ?_⟩
+  · have := arg_call_equivalence h ⟨.fnptr, .value, .in_, false⟩ (.ptr (.heap a)) (by decide) ⟨a, rfl⟩
+    simpa [expected] using this
+  · have := arg_call_equivalence h ⟨.cstr, .pointer, .in_, true⟩ (.ptr (.heap a)) (by decide) ⟨a, rfl⟩
+    simpa [expected] using this
+  · have := arg_call_equivalence h ⟨.void_, .pointer, .in_, true⟩ (.ptr (.heap a)) (by decide) ⟨a, rfl⟩
+    simpa [expected] using this
 
 /-- all arguments, in declaration order (induction over the parameter list) -/
 def expectedArgs (h : Heap) : List Param → List Val → List Seen
@@ -600,7 +629,7 @@ theorem arg_out_equivalence (h : Heap) (p : Param) (a : Nat) (w : Val) (hv : p.v
     (hw : wellTyped h p (.ptr (.heap a))) :
     runArgOut h p.mode (planOf p) (.ptr (.heap a)) (some w) =
       (if p.ty = .string ∧ p.intent = .in_ then none else some (a, w)) := by
-  rw [table_arg_shapes p (Or.inl hv)]
+  rw [table_arg_shapes p hv]
   obtain ⟨t, m, i⟩ := p
   cases t <;> cases m <;> cases i <;> simp [Param.valid] at hv <;> simp at hm <;> simp at hm2 <;> simp at hs <;>
     simp [runArgOut, docPlan, runPre, evalRhs, evalCall, Env.get, Var.addr]
@@ -609,7 +638,7 @@ theorem arg_out_equivalence (h : Heap) (p : Param) (a : Nat) (w : Val) (hv : p.v
 theorem string_inout_untouched (h : Heap) (m : Mode) (a : Nat) (s : List Nat) (hm : m ≠ .value)
     (hm2 : m ≠ .convString) (hs : h a = .str s) :
     runArgOut h m (planOf ⟨.string, m, .inout, false⟩) (.ptr (.heap a)) none = some (a, .str s) := by
-  rw [table_arg_shapes _ (Or.inl (by cases m <;> simp_all [Param.valid]))]
+  rw [table_arg_shapes _ (by cases m <;> simp_all [Param.valid])]
   cases m <;> simp at hm <;> simp at hm2 <;> simp [runArgOut, docPlan, runPre, evalRhs, evalCall, Env.get, Var.addr, hs]
 
 /-! ## results, `this`, whole wrapper -/
@@ -658,17 +687,17 @@ def funcOf (k : RKind) (isMethod isStatic isConst : Bool) (ps : List Param) : Fu
 
 /-- documented result handling per kind -/
 def docRes : RKind → ResPlan
-  | .void => ⟨.plain, .none, false, false, .none, []⟩
-  | .nativeVal | .nativePtr | .boolVal | .cstr => ⟨.assign, .none, false, false, .cvar 0, []⟩
-  | .nativeRef => ⟨.assign, .none, false, false, .cvar 1, []⟩
-  | .enumVal => ⟨.assign, .castInt, false, false, .cvar 0, []⟩
-  | .stringRef | .stringPtr => ⟨.assign, .cStr, false, false, .cvar 0, []⟩
-  | .shadowPtr | .shadowRef => ⟨.assign, .none, true, false, .shadow, [.shadow false]⟩
-  | .shadowVal => ⟨.assignNew, .none, true, false, .shadow, [.shadow false]⟩
-  | .ctor => ⟨.ctorNew, .none, false, false, .shadow, [.shadow false]⟩
-  | .structVal => ⟨.assign, .none, false, true, .cvar 2, []⟩
-  | .structPtr => ⟨.assign, .none, false, true, .cvar 0, []⟩
-  | .dtor => ⟨.dtorDelete, .none, false, false, .none, []⟩
+  | .void => ⟨.plain, .none, false, false, false, .none, []⟩
+  | .nativeVal | .nativePtr | .boolVal | .cstr => ⟨.assign, .none, false, false, false, .cvar 0, []⟩
+  | .nativeRef => ⟨.assign, .none, false, false, false, .cvar 1, []⟩
+  | .enumVal => ⟨.assign, .castInt, false, false, false, .cvar 0, []⟩
+  | .stringRef | .stringPtr => ⟨.assign, .cStr, false, false, false, .cvar 0, []⟩
+  | .shadowPtr | .shadowRef => ⟨.assign, .none, true, false, false, .shadow, [.shadow false]⟩
+  | .shadowVal => ⟨.assignNew, .none, true, false, false, .shadow, [.shadow false]⟩
+  | .ctor => ⟨.ctorNew, .none, false, false, false, .shadow, [.shadow false]⟩
+  | .structVal => ⟨.assign, .none, false, true, false, .cvar 2, []⟩
+  | .structPtr => ⟨.assign, .none, false, true, false, .cvar 0, []⟩
+  | .dtor => ⟨.dtorDelete, .none, false, false, true, .none, []⟩
 
 def resPlanOf (k : RKind) (m s c : Bool) (ps : List Param) : ResPlan :=
   let f := funcOf k m s c ps
@@ -795,8 +824,13 @@ theorem call_equivalence_no_this (h : Heap) (k : RKind) (m s c : Bool) (ps : Lis
   simp only [runWrapper, h1, assembleC_args, assembleC_res, args_call_equivalence h ps cs ht,
     result_equivalence h k m s c ps r tail fresh idtor hr]
 
+/-- what the C caller of a method gets: as `expectedRes`, and after the destructor wrapper the handle
+    holds NULL (`self->addr = nullptr`), its `idtor` field unchanged -/
+def expectedResM (k : RKind) (r : CxxRet) (self i tail fresh idtor : Nat) : CResult :=
+  if k = .dtor then ⟨none, some (self, .capsule none i)⟩ else expectedRes k r tail fresh idtor
+
 /-- **(1) call equivalence, instance method / destructor**: additionally `this` is the object named
-    by the first C parameter. -/
+    by the first C parameter; the destructor wrapper deletes that object and clears the handle. -/
 theorem call_equivalence_method (h : Heap) (k : RKind) (m s c : Bool) (ps : List Param)
     (cs : List Val) (r : CxxRet) (self obj i tail fresh idtor : Nat)
     (hthis : ((m || k = .dtor) && !(k = .ctor) && !s) = true)
@@ -804,12 +838,25 @@ theorem call_equivalence_method (h : Heap) (k : RKind) (m s c : Bool) (ps : List
     (ht : AllTyped h ps cs) (hr : retTyped k r) :
     runWrapper h (assembleC vocab entries tree (funcOf k m s c ps)) (ps.map (·.mode))
         (.ptr (.heap self) :: cs) k.isPtr r (some tail) fresh idtor =
-      (⟨some (.ptr (.heap obj)), expectedArgs h ps cs⟩, expectedRes k r tail fresh idtor) := by
+      (⟨some (.ptr (.heap obj)), expectedArgs h ps cs⟩, expectedResM k r self i tail fresh idtor) := by
   have h1 := this_plan k m s c ps
   rw [hthis] at h1
   simp only [if_true] at h1
   simp only [runWrapper, h1, assembleC_args, assembleC_res, args_call_equivalence h ps cs ht,
     result_equivalence h k m s c ps r tail fresh idtor hr, this_object h self obj i hself]
+  rw [table_res_shapes]
+  cases k <;> simp [docRes, expectedResM, clearHandle, hself, expectedRes]
+
+/-- **(4) destructor**: `<Class>_dtor(self)` runs the C++ destructor on the object the handle holds
+    and leaves `{addr = NULL, idtor unchanged}` in the caller's handle -/
+theorem dtor_clears_handle (h : Heap) (self obj i tail fresh idtor : Nat)
+    (hself : h self = .capsule (some obj) i) :
+    runWrapper h (assembleC vocab entries tree (funcOf .dtor false false false [])) []
+        [.ptr (.heap self)] false .void (some tail) fresh idtor =
+      (⟨some (.ptr (.heap obj)), []⟩, ⟨none, some (self, .capsule none i)⟩) := by
+  have := call_equivalence_method h .dtor false false false [] [] .void self obj i tail fresh idtor
+    (by decide) hself AllTyped.nil rfl
+  simpa [expectedResM, expectedArgs, RKind.isPtr, resTriple] using this
 
 /-- non-vacuity: `int K::m(const std::string &s, int &n, Color e) const` -/
 example :
@@ -897,8 +944,8 @@ example : lookupStmts tree [p_c, p_string, p_ref, p_in] = some 21 := by decide +
 
 /-- `_partial`: argument kinds that exist in the table but are not given a semantics here: every
     entry with a buf / cfi / cdesc part (bufferify and CFI API: std::vector, character buffers,
-    array contexts), `**` / `*&` of non-native types (`char **`, `void **`), function pointers, MPI_Comm,
-    template arguments, `deref(scalar)` results, C_error_pattern, fstatements overrides.
+    array contexts), MPI_Comm, template-argument specialisations, `deref(scalar)` results, enum pointer
+    results, C_error_pattern, fstatements overrides.
     What is proved for them: they are unreachable from plain keys (no buf/cfi/cdesc part). -/
 theorem plain_keys_reach_plain_entries_partial :
     ∀ p : Param, (selectEntry entries tree ((descOf p).key vocab)).plain = true := by
